@@ -52,6 +52,18 @@ class World:
         return self.clients[cid].unique
 
 
+def forged_sender(w_, cid, step, ctx):
+    """Every third request carries a SENDER header field naming ANOTHER connected client (legal on the wire; a relay
+    might leave it in): the bus knows who is calling from the connection, not from what the caller wrote."""
+    if (step + cid) % 3:
+        return None
+    others = [c for c in sorted(w_.alive) if c != cid and w_.clients[c].unique]
+    if not others:
+        return None
+    ctx.count('requests_with_forged_sender')
+    return w_.clients[others[(step + cid) % len(others)]].unique
+
+
 def signals_of(client):
     """(member, name) of bus signals addressed to this client since the last take."""
     out = []
@@ -96,7 +108,7 @@ def run_history(ctx, nclients, ops, names, case):
             flags = op[3]
             old_flags = dict((c, f) for c, f in model.q.get(name, []))
             code, expected_events, replaced = model.request(cid, name, flags)
-            s = cl.call('RequestName', 'su', [name, flags])
+            s = cl.call('RequestName', 'su', [name, flags], sender=forged_sender(w_, cid, len(hist), ctx))
             rep = cl.reply_to(s)
             w['expected_reply'] = code
             if rep is None or rep.mtype != RM.METHOD_RETURN or rep.body != [code]:
@@ -109,7 +121,7 @@ def run_history(ctx, nclients, ops, names, case):
             name = names[op[2]]
             was_queued = cid in model.queue(name)[1:]
             codes, expected_events = model.release(cid, name)
-            s = cl.call('ReleaseName', 's', [name])
+            s = cl.call('ReleaseName', 's', [name], sender=forged_sender(w_, cid, len(hist), ctx))
             rep = cl.reply_to(s)
             if rep is None or rep.mtype != RM.METHOD_RETURN or rep.body[0] not in codes:
                 w['reply'] = (rep.mtype, rep.fields.get('error_name'), rep.body) if rep else None
@@ -118,6 +130,17 @@ def run_history(ctx, nclients, ops, names, case):
                 return False
             if was_queued:
                 ctx.count('releases_by_queued_client')
+        elif kind == 'bad':
+            # a request the bus must refuse (not a valid well-known name, or a release of one): an error reply or a
+            # "non-existent" code, and nothing about the valid names changes (the queries below check that)
+            member, arg = op[2], op[3]
+            s = cl.call(member, 'su' if member == 'RequestName' else 's', [arg, 4] if member == 'RequestName' else [arg])
+            rep = cl.reply_to(s)
+            if rep is None or not (rep.mtype == RM.ERROR or (member == 'ReleaseName' and rep.body in ([2], [3]))):
+                w['reply'] = (rep.mtype, rep.fields.get('error_name'), rep.body) if rep else None
+                ctx.report('invalid-name-accepted', '%s(%r) by client %d answered %r' % (member, arg, cid, w['reply']), w, case)
+                return False
+            ctx.count('refused_requests')
         elif kind == 'disc':
             was_owner = [n for n in names if model.owner(n) == cid]
             was_queued = [n for n in names if cid in model.queue(n)[1:]]
@@ -278,6 +301,9 @@ def run(ctx):
             k = r.random()
             if k < 0.05:
                 ops.append(('conn',))
+            elif k < 0.12:
+                ops.append(('bad', r.randrange(4), r.choice(['RequestName', 'RequestName', 'ReleaseName']),
+                            r.choice(['', ':1.1', 'nodots', 'a..b', '1a.b', 'a.b!', 'a.' + 'b' * 300, 'org.verif.N1\n'])))
             else:
                 op = r.choice(alphabet)
                 if op[0] == 'disc' and r.random() < 0.6:
